@@ -825,7 +825,7 @@ class C06:
                 cmd = b"x" if v == "xpat" else b"p"
             elif v == "over":
                 files = [e for e in spec if e[0] == "file"]
-                cmd = rnd.choice([b"x", b"xf", b"xq1", b"e"])
+                cmd = rnd.choice([b"x", b"xf", b"xq1", b"e", b"xq0", b"xq", b"xq2", b"eq0", b"x", b"e"])
                 ans = []
                 for e in files:
                     if rnd.random() < 0.6:
